@@ -382,6 +382,136 @@ def diff (v1 v2 : List β) : List β :=
 
 end Sets
 
+
+/-! ## Specifications
+
+The definitions the theorems of `BppProofs/Props/C07*.lean` equate the routines with.  They are
+executable: the driver evaluates the *same* definitions on the implementation's answers
+(`Spec.*` at `Rat`, i.e. exactly; the predicates through their `Decidable` instances). -/
+
+namespace Spec
+variable {α : Type} [Scalar α]
+open Scalar
+
+/-- Σ v -/
+def sum (v : List α) : α := v.foldr (· + ·) zero
+/-- Π v -/
+def prod (v : List α) : α := v.foldr (· * ·) one
+/-- Σ aᵢ·bᵢ -/
+def dot (a b : List α) : α := sum (List.zipWith (· * ·) a b)
+/-- Σ aᵢ·bᵢ·wᵢ -/
+def dotW (a b w : List α) : α := sum (zipWith3 (fun x y c => x * y * c) a b w)
+/-- (Σ v)/n -/
+def mean (v : List α) : α := sum v / ofInt v.length
+/-- (Σ vᵢ·wᵢ)/(Σ w) -/
+def meanW (v w : List α) : α := dot v w / sum w
+/-- Σ (aᵢ-ā)(bᵢ-b̄) / (n-1 | n) -/
+def cov (a b : List α) (unbiased : Bool) : α :=
+  sum (List.zipWith (fun x y => (x - mean a) * (y - mean b)) a b) /
+    (if unbiased then ofInt a.length - one else ofInt a.length)
+end Spec
+
+section Pred
+variable {β : Type}
+
+/-- `pos` is the first position of an extremal element (`better y m`: `y` beats `m`):
+nothing beats `v[pos]`, and `v[pos]` beats everything before it -/
+def IsFirstExtremum (better : β → β → Bool) (v : List β) (pos : Nat) : Prop :=
+  match v[pos]? with
+  | none => False
+  | some m => (∀ y ∈ v, better y m = false) ∧ (∀ y ∈ v.take pos, better m y = true)
+
+instance (better : β → β → Bool) (v : List β) (pos : Nat) : Decidable (IsFirstExtremum better v pos) := by
+  unfold IsFirstExtremum; split <;> infer_instance
+
+/-- `m` occurs in `v` and nothing beats it -/
+def IsExtremum (eq better : β → β → Bool) (v : List β) (m : β) : Prop :=
+  contains eq v m = true ∧ ∀ y ∈ v, better y m = false
+
+instance (eq better : β → β → Bool) (v : List β) (m : β) : Decidable (IsExtremum eq better v m) := by
+  unfold IsExtremum; infer_instance
+
+/-- exactly the positions holding a value `== m`, in increasing order -/
+def IsPositionsOf (eq : β → β → Bool) (v : List β) (m : β) (pos : List Nat) : Prop :=
+  pos = (List.range v.length).filter (fun i => match v[i]? with | some y => eq y m | none => false)
+
+instance (eq : β → β → Bool) (v : List β) (m : β) (pos : List Nat) : Decidable (IsPositionsOf eq v m pos) := by
+  unfold IsPositionsOf; infer_instance
+
+/-- non-decreasing for the strict comparison `lt`: no later element is smaller -/
+def SortedBy (lt : β → β → Bool) (l : List β) : Prop := l.Pairwise (fun a b => lt b a = false)
+
+instance (lt : β → β → Bool) (l : List β) : Decidable (SortedBy lt l) := by
+  unfold SortedBy; infer_instance
+
+/-- strictly increasing -/
+def StrictSorted (lt : β → β → Bool) (l : List β) : Prop := l.Pairwise (fun a b => lt a b = true)
+
+instance (lt : β → β → Bool) (l : List β) : Decidable (StrictSorted lt l) := by
+  unfold StrictSorted; infer_instance
+
+/-- `idx` is a permutation of the positions of `v` along which `v` is non-decreasing -/
+def IsSortingPerm (lt : β → β → Bool) (v : List β) (idx : List Nat) : Prop :=
+  idx.Perm (List.range v.length) ∧ SortedBy lt (idx.filterMap (fun i => v[i]?))
+
+instance (lt : β → β → Bool) (v : List β) (idx : List Nat) : Decidable (IsSortingPerm lt v idx) := by
+  unfold IsSortingPerm; infer_instance
+
+/-- `s` is `v` sorted -/
+def IsSortOf [DecidableEq β] (lt : β → β → Bool) (v s : List β) : Prop := s.Perm v ∧ SortedBy lt s
+
+instance [DecidableEq β] (lt : β → β → Bool) (v s : List β) : Decidable (IsSortOf lt v s) := by
+  unfold IsSortOf; infer_instance
+
+/-- `m` is a median: at least half of the elements are `≤ m` and at least half are `≥ m` -/
+def IsMedian (lt : β → β → Bool) (v : List β) (m : β) : Prop :=
+  v.length ≤ 2 * v.countP (fun x => !(lt m x)) ∧ v.length ≤ 2 * v.countP (fun x => !(lt x m))
+
+instance (lt : β → β → Bool) (v : List β) (m : β) : Decidable (IsMedian lt v m) := by
+  unfold IsMedian; infer_instance
+
+/-- the two lists have the same elements -/
+def SameSet (eq : β → β → Bool) (a b : List β) : Prop :=
+  (∀ x ∈ a, contains eq b x = true) ∧ (∀ x ∈ b, contains eq a x = true)
+
+instance (eq : β → β → Bool) (a b : List β) : Decidable (SameSet eq a b) := by
+  unfold SameSet; infer_instance
+
+/-- no two positions hold `==` values -/
+def NoDup (eq : β → β → Bool) (l : List β) : Prop := l.Pairwise (fun a b => eq a b = false)
+
+instance (eq : β → β → Bool) (l : List β) : Decidable (NoDup eq l) := by
+  unfold NoDup; infer_instance
+
+/-- `u` = `a` followed by elements of `b`, holds exactly the elements of `a` or `b`, and adds no
+duplicate -/
+def IsUnion (eq : β → β → Bool) (a b u : List β) : Prop :=
+  (∀ x ∈ u, contains eq a x = true ∨ contains eq b x = true) ∧
+  (∀ x ∈ a, contains eq u x = true) ∧ (∀ x ∈ b, contains eq u x = true) ∧
+  listEq eq (u.take a.length) a = true ∧ NoDup eq (u.drop a.length) ∧
+  (∀ x ∈ u.drop a.length, contains eq a x = false)
+
+instance (eq : β → β → Bool) (a b u : List β) : Decidable (IsUnion eq a b u) := by
+  unfold IsUnion; infer_instance
+
+/-- elements of `a` that occur in `b` -/
+def IsInter (eq : β → β → Bool) (a b r : List β) : Prop :=
+  (∀ x ∈ r, contains eq a x = true ∧ contains eq b x = true) ∧
+  (∀ x ∈ a, contains eq b x = true → contains eq r x = true)
+
+instance (eq : β → β → Bool) (a b r : List β) : Decidable (IsInter eq a b r) := by
+  unfold IsInter; infer_instance
+
+/-- elements of `a` that do not occur in `b`, strictly increasing -/
+def IsDiff (eq lt : β → β → Bool) (a b r : List β) : Prop :=
+  (∀ x ∈ r, contains eq a x = true ∧ contains eq b x = false) ∧
+  (∀ x ∈ a, contains eq b x = false → contains eq r x = true) ∧ StrictSorted lt r
+
+instance (eq lt : β → β → Bool) (a b r : List β) : Decidable (IsDiff eq lt a b r) := by
+  unfold IsDiff; infer_instance
+
+end Pred
+
 /-! ### StatTools::computeFdr (StatTools.cpp:13-28) -/
 section Fdr
 variable {α : Type} [Scalar α]
@@ -410,6 +540,19 @@ def computeFdrOrig (p : List α) : Res (List α) :=
 /-- after the repair: the rank; position `k` of the decreasing sort has rank `n - k` -/
 def computeFdr (p : List α) : Res (List α) :=
   fdrLoop p.length (fun k _ => p.length - k) 0 (sortPValues p) (List.replicate p.length zero)
+
+/-- Benjamini–Hochberg: the answer has one entry per p-value, and the entries of the p-values
+equal to `x` are `x·n/r` for the ranks `r` of that tie group — the `m` ranks below
+`n - #{p > x}` — in some order (for distinct p-values: `outᵢ = pᵢ·n/#{pⱼ ≤ pᵢ}`) -/
+def IsFdr (p out : List α) : Prop :=
+  out.length = p.length ∧ ∀ x ∈ p,
+    listEq eqb
+      (sortVals ((p.zip out).filterMap (fun yo => if eqb yo.1 x then some yo.2 else none)))
+      (sortVals ((List.range (p.countP (fun y => eqb y x))).map
+        (fun (k : Nat) => x * ofInt p.length / ofInt ((p.length - (p.countP (fun y => ltb x y) + k) : Nat) : Int)))) = true
+
+instance (p out : List α) : Decidable (IsFdr p out) := by
+  unfold IsFdr; infer_instance
 
 end Fdr
 end Bpp.VecTools
